@@ -13,6 +13,8 @@ export VERIF_ROOT="${VERIF_OUT:-$PWD}"
 SCR=$(mktemp -d "${TMPDIR:-/tmp}/verif-run.XXXXXX") || exit 3
 trap 'rm -rf "$SCR"' EXIT
 export VERIF_SCRATCH="$SCR"
+# small Go build cache holding the standard library for the builds of generated parsers (made by setup.sh)
+export VERIF_SEEDCACHE="${VERIF_SEEDCACHE:-/verif/.cache/gendrv-seed}"
 REPO="${VERIF_REPO:-/repo}"
 export VERIF_REPO="$REPO"
 # the harness module replaces yaccgo by $REPO: a scratch go.mod keeps harness/go.mod untouched
